@@ -12,6 +12,7 @@ trap cleanup EXIT
 cd $WT
 PKG=$(python3 -c "import json;print(json.load(open('$SRC/meta.json')).get('demo_package_dir','').strip('./'))")
 DEMO=$(ls $SRC/*_test.go | head -1)
+RACE=""; grep -q -- '-race' $SRC/meta.json && RACE="-race"   # a demonstration that needs the race detector says so in demo_run_cmd
 [ -n "$PKG" ] && [ -d "$PKG" ] || { echo "bad demo_package_dir '$PKG'"; exit 2; }
 cp $DEMO $PKG/zz_demo_test.go
 base() { go test -vet=off -count=1 -json ./pkg/... ./example/... 2>/dev/null | python3 -c "
@@ -22,14 +23,14 @@ for l in sys.stdin:
     except: continue
     if e.get('Action')=='pass' and e.get('Test') and 'Demo' not in e['Test'] and 'demo' not in e['Test'].lower(): ok.add(e['Package']+'::'+e['Test'])
 print('\n'.join(sorted(ok)))"; }
-go test -vet=off -count=1 ${RUNFILTER:+-run $RUNFILTER} ./$PKG/ > /tmp/wtv/$ID-$V.clean.log 2>&1; CLEAN=$?
+go test $RACE -vet=off -count=1 ${RUNFILTER:+-run $RUNFILTER} ./$PKG/ > /tmp/wtv/$ID-$V.clean.log 2>&1; CLEAN=$?
 rm $PKG/zz_demo_test.go
 base > /tmp/wtv/$ID-$V.base0
 git apply $SRC/patch.diff || { echo "patch does not apply"; exit 2; }
 go build ./... || { echo "does not build"; exit 2; }
 base > /tmp/wtv/$ID-$V.base1
 cp $DEMO $PKG/zz_demo_test.go
-go test -vet=off -count=1 ${RUNFILTER:+-run $RUNFILTER} ./$PKG/ > /tmp/wtv/$ID-$V.patched.log 2>&1; PATCHED=$?
+go test $RACE -vet=off -count=1 ${RUNFILTER:+-run $RUNFILTER} ./$PKG/ > /tmp/wtv/$ID-$V.patched.log 2>&1; PATCHED=$?
 LOST=$(comm -23 /tmp/wtv/$ID-$V.base0 /tmp/wtv/$ID-$V.base1 | wc -l)
 echo "$ID-$V: demo clean rc=$CLEAN, patched rc=$PATCHED, baseline tests lost=$LOST (of $(wc -l < /tmp/wtv/$ID-$V.base0))"
 if [ $CLEAN -eq 0 ] && [ $PATCHED -ne 0 ] && [ $LOST -eq 0 ]; then
